@@ -16,7 +16,13 @@ let parse_op (keys : n list array) (s : string) : cop =
   | "I" -> OInsert (key 1, v 2)
   | "G" | "O" -> OGet (key 1, v 2)
   | "J" -> OTryInsert (key 1)
-  | "R" -> ORemove (key 1)
+  | "R" ->
+    (* variant 2 = Remove of a NUL-terminated C string: the key up to its first NUL *)
+    if num 2 = 2 then
+      let rec cut l = match l with [] -> [] | x :: r -> (match x with N0 -> [] | _ -> x :: cut r) in
+      ORemove (cut (key 1))
+    else ORemove (key 1)
+  | "W" -> OReserve (nat_of_int (num 1))   (* h = Table(n): Reserve(n) of a table resets it and allocates for n *)
   | "X" -> ORemoveIndex (nat_of_int (num 1))
   | "Y" -> ORemoveAt (key 1)
   | "N" -> ORename (key 1, key 2)
